@@ -154,6 +154,91 @@ def case(ctx, idx, res):
     res.sample = {'document': xml[:200], 'expression': expr, 'top': top}
 
 
+def xslt_case(ctx, idx, res):
+    """the consequence the property names: the same expression as xsl:if / xsl:when test, xsl:value-of select, attribute value template,
+    variable, numeric argument of xsl:number and sort key, at one context, against boolean(E) / string(E) / number(E) evaluated in the same
+    transformation.  One expression per transformation (a failing one only loses itself)."""
+    import re
+    import xsltcommon as XC
+    import gen_xslt
+    r = rng_for(ctx.seed, 'c11x', idx)
+    runner = ctx.cache.get('runner')
+    if runner is None:
+        runner = ctx.cache['runner'] = XC.Runner(ctx, 'plain')
+    xml, info = gen_xml.gen_doc(r, size=r.choice([8, 15, 25]), ns=r.random() < 0.5)
+    sigs = set()
+    res.evals = 0
+    for j in range(12):
+        g = gen_xpath.Gen(r, info, {'n1': 'num', 's1': 'str', 'b1': 'bool', 'ns1': 'ns'}, max_depth=3, xslt=True)
+        top = TOPS[(idx * 12 + j) % len(TOPS)]
+        expr = forced_top(g, r, top).replace('$n2', '$n1').replace('$s2', '$s1').replace('$ns2', '$ns1')
+        try:
+            if X.static_errors(X.parse(expr), xslt=True, namespaces=NS):
+                continue
+        except X.XPathSyntaxError:
+            continue
+        e = gen_xslt.aesc(expr)
+        ea = e.replace('{', '{{').replace('}', '}}')
+        k = r.randrange(1, 30)
+        body = ('<b1><xsl:if test="%(e)s">T</xsl:if></b1><b2><xsl:choose><xsl:when test="%(e)s">T</xsl:when><xsl:otherwise/></xsl:choose></b2><b3><xsl:value-of select="boolean(%(e)s)"/></b3>'
+                '<s1><xsl:value-of select="%(e)s"/></s1><s2 a="{%(ea)s}"/><s3><xsl:value-of select="string(%(e)s)"/></s3><s4><xsl:variable name="v" select="%(e)s"/><xsl:value-of select="$v"/></s4>'
+                '<s5><xsl:variable name="w"><xsl:value-of select="%(e)s"/></xsl:variable><xsl:value-of select="$w"/></s5>'
+                '<n1><xsl:number value="%(e)s" format="1"/></n1><n2><xsl:value-of select="round(number(%(e)s))"/></n2>'
+                ) % {'e': e, 'ea': ea}
+        xsl = (gen_xslt.HEAD % '') + ('<xsl:variable name="n1" select="2.5"/><xsl:variable name="s1" select="\'a b\'"/><xsl:variable name="b1" select="true()"/><xsl:variable name="ns1" select="//*[position() mod 3 = 1]"/>'
+                                      '<xsl:variable name="three" select="(//*)[position() &lt; 6]"/>'
+                                      '<xsl:template match="/"><out><xsl:for-each select="(//node()|//@*)[%d]">%s</xsl:for-each>'
+                                      '<ks><xsl:for-each select="$three"><xsl:sort select="%s" data-type="number"/><i id="{generate-id()}"/></xsl:for-each></ks>'
+                                      '<kp><xsl:for-each select="$three"><j id="{generate-id()}" n="{number(%s)}"/></xsl:for-each></kp></out></xsl:template></xsl:stylesheet>' % (k, body, e, ea))
+        rx = runner.transform(xsl, xml)
+        res.evals += 1
+        if rx.status != 0:
+            res.count('xslt_expression_errors')
+            continue
+        try:
+            t = refxml.parse(XC._DECL.sub('', rx.out.decode('utf-8')))
+        except (refxml.ParseError, UnicodeDecodeError):
+            res.count('xslt_unparsable')
+            continue
+        out = [c for c in t.children if c.kind == refxml.ELEM][0]
+        v = {}
+        for c in out.children:
+            if c.kind == refxml.ELEM:
+                v[c.local] = c.string_value() if c.local != 's2' else dict((a.local, a.value) for a in c.attrs).get('a', '')
+        # the sort key: the order of a numeric sort must be the one number(E) gives for each node (NaN first, stable)
+        ks = [dict((a.local, a.value) for a in c.attrs)['id'] for o in out.children if o.kind == refxml.ELEM and o.local == 'ks' for c in o.children if c.kind == refxml.ELEM]
+        kp = [dict((a.local, a.value) for a in c.attrs) for o in out.children if o.kind == refxml.ELEM and o.local == 'kp' for c in o.children if c.kind == refxml.ELEM]
+        if ks and len(ks) == len(kp):
+            def keyf(t):
+                x = float('nan') if t == 'NaN' else float('inf') if t == 'Infinity' else float('-inf') if t == '-Infinity' else float(t)
+                return (0, 0.0) if x != x else (1, x)
+            want = [d['id'] for d in sorted(kp, key=lambda d: keyf(d['n']))]
+            if want != ks:
+                res.viol('xslt|number|sort-key|%s' % top, 'as a numeric sort key the expression %s orders the nodes %s, number() of it gives %s' % (expr[:150], ks, [(d['id'], d['n']) for d in kp]),
+                         {'stylesheet': xsl, 'document': xml, 'expression': expr})
+            res.count('xslt_sort_keys_compared')
+        v.pop('ks', None)
+        v.pop('kp', None)
+        if not v:
+            continue                    # no such context node
+        payload = {'stylesheet': xsl, 'document': xml, 'expression': expr}
+        want_b = 'T' if v.get('b3') == 'true' else ''
+        for site in ('b1', 'b2'):
+            if v.get(site) != want_b:
+                res.viol('xslt|boolean|%s|%s' % ('if' if site == 'b1' else 'when', top), 'xsl:%s test="%s" %s, boolean() of the same expression is %s' % ('if' if site == 'b1' else 'when', expr[:150], 'holds' if v.get(site) else 'does not hold', v.get('b3')), payload)
+                break
+        for site, name in (('s1', 'value-of'), ('s2', 'avt'), ('s4', 'variable'), ('s5', 'value-of-in-variable')):
+            if v.get(site) != v.get('s3'):
+                res.viol('xslt|string|%s|%s' % (name, top), 'as %s the expression %s gives %r, string() of it %r' % (name, expr[:150], (v.get(site) or '')[:80], (v.get('s3') or '')[:80]), payload)
+                break
+        if re.match(r'^[1-9][0-9]{0,14}$', v.get('n2', '')) and v.get('n1') != v.get('n2'):
+            res.viol('xslt|number|number-value|%s' % top, 'xsl:number value="%s" gives %r, round(number()) of it is %s' % (expr[:150], v.get('n1'), v.get('n2')), payload)
+        res.count('xslt_expressions_compared')
+        sigs.add(('xslt', top))
+    res.sigs = sigs
+    res.sample = {'kind': 'xslt'}
+
+
 def show(e, v):
     if e == 'num' and v:
         return C.from_hex(v)
@@ -170,9 +255,10 @@ def main():
     chk.ensure('plain', 'xvdrv')
     n = 400 if chk.tier == 'quick' else 150000
     chk.run_cases('c11', 'case', range(n))
+    chk.run_cases('c11', 'xslt_case', range(n if chk.tier == 'quick' else n // 15))
     cells = [k for k in chk.stats if k.startswith('cell_')]
     chk.extra['cells_observed'] = len(cells)
-    chk.finish(min_nontrivial=40)
+    chk.finish(min_nontrivial=40, required_stats=('xslt_expressions_compared', 'xslt_sort_keys_compared'))
 
 
 if __name__ == '__main__':
